@@ -20,6 +20,7 @@ pub mod wav;
 pub mod hampel;
 pub mod c01;
 pub mod reg;
+pub mod c19;
 
 pub fn lookup(id: &str) -> Option<Prop> {
     Some(match id {
@@ -42,6 +43,7 @@ pub fn lookup(id: &str) -> Option<Prop> {
         "C01" => Prop { header: c01::HEADER, generate: c01::generate, exec: c01::exec },
         "C12" => Prop { header: reg::H12, generate: reg::gen12, exec: reg::exec12 },
         "C20" => Prop { header: reg::H20, generate: reg::gen20, exec: reg::exec20 },
+        "C19" => Prop { header: c19::HEADER, generate: c19::generate, exec: c19::exec },
         _ => return None,
     })
 }
